@@ -8,3 +8,5 @@ import "github.com/antlr4-go/antlr/v4"
 func verifTraceListener(*OpenFgaDslListener, string, ...string) {}
 
 func verifObserveTokens(*antlr.CommonTokenStream) {}
+
+func verifTraceDoc(*OpenFgaDslListener, string, antlr.ParserRuleContext) {}
